@@ -6,6 +6,7 @@
 #include "lsim.h"
 #include "monitors.h"
 #include <algorithm>
+#include <errno.h>
 #include <stdio.h>
 #include <string.h>
 
@@ -231,7 +232,7 @@ Plan gen_ioerr(uint64_t seed, const string &prop) {
   Plan p;
   p.mode = "ioerr"; p.seed = seed;
   p.cfg = random_config(r);
-  p.cfg.cmp = 0;
+  if (p.cfg.cmp == 3) p.cfg.cmp = 0; // the judges compare maps keyed by byte strings: comparators that equate different strings stay out
   if (r.chance(0.8)) p.cfg.wbs = 65536;
   p.sc = random_sched(r, false);
   p.params["prop"] = prop;
@@ -295,6 +296,8 @@ void exec_ioerr(const Plan &p, RunOut *out) {
             bool wr = call == simfs::C_WRITE || call == simfs::C_CREAT || call == simfs::C_FSYNC || call == simfs::C_MKDIR || call == simfs::C_RENAME;
             int e = (int)r.below(4);
             s.rule.err = wr ? (e < 2 ? ENOSPC : EIO) : (call == simfs::C_OPEN || call == simfs::C_OPENDIR || call == simfs::C_MMAP) ? (e == 0 ? EMFILE : e == 1 ? ENOENT : e == 2 ? EACCES : EIO) : EIO;
+            if (call == simfs::C_LINK && e >= 1) s.rule.err = e == 1 ? EXDEV : e == 2 ? EPERM : EMLINK;  // "cannot hard-link here": lcdb falls back to copying the file
+            if (call == simfs::C_FSYNC && fc == simfs::FC_DIR && e == 3) s.rule.err = EINVAL;              // directory that cannot be fsynced: tolerated by design
             s.rule.persistent = r.chance(0.4);
             s.rule.partial = (call == simfs::C_WRITE && r.chance(0.4)) ? (int)r.range(100, 900) : 0;
             s.kill_at_end = r.chance(0.5);
